@@ -6,14 +6,14 @@ from . import common as C
 ID = 'C11'
 LEVEL = 'fault_enumeration'
 BUDGET = {'quick': 100, 'thorough': 900}
-RULE = ('Cases = request type (worker, persistent worker, context create, context delete, worker in context) x the byte stream a '
+RULE = ('Cases = request type (worker, persistent worker, context create, duplicate context create, context delete, worker in context) x the byte stream a '
         'well-behaved client sends on the data connection (recorded in the same run) replayed by a scripted raw-socket client and '
         'cut at an enumerated offset with FIN or RST, or sent completely followed by a faulty control-channel handshake step '
         '(never connects, connects and closes, closes after the runtime info, vanishes while the worker runs) x optionally a '
         'healthy client with a running worker x sequences of 1-3 faulty clients x schedule.')
 ASSUMPTIONS = ['after each faulty client the server must be alive and serve a fresh RemoteWorker round trip and a fresh request of the faulty client\'s kind (same context) within 120 simulated s each']
 
-REQS = ['worker', 'pworker', 'ctx-create', 'ctx-delete', 'worker-in-ctx']
+REQS = ['worker', 'pworker', 'ctx-create', 'ctx-delete', 'worker-in-ctx', 'ctx-create-dup']
 STEPS = ['never-ctrl', 'ctrl-connect-close', 'ctrl-connect-reset', 'close-after-info', 'vanish-running']
 
 
@@ -59,6 +59,20 @@ class Run:
             c = RemoteContext(self.ctx_seq, host=addr, target=T.t_return, kwargs={'v': 'tmp'})
             n0 = s.nconn
             c.close()
+        elif req == 'ctx-create-dup':
+            # a second registration of an id that another (healthy) client owns: refused with ValueError
+            if not ctxs:
+                self.ctx_seq = getattr(self, 'ctx_seq', 50) + 1
+                ctxs.append(RemoteContext(self.ctx_seq, host=addr, target=T.t_return, kwargs={'v': 'from-ctx'}))
+            n0 = s.nconn
+            try:
+                RemoteContext(ctxs[-1].context_id, host=addr, target=T.t_return, kwargs={'v': 'intruder'})
+                ok = False
+            except ValueError:
+                pass
+            # the owner's context must still serve its workers
+            w = RemoteWorker(None, context=ctxs[-1].context_id, host=addr)
+            ok = ok and w.wait(timeout=30) and w.result == 'from-ctx'
         elif req == 'worker-in-ctx':
             if not ctxs:
                 self.ctx_seq = getattr(self, 'ctx_seq', 50) + 1
